@@ -121,6 +121,7 @@ type E struct {
 	NRes   int      // calls: number of results
 	N      int64    // choice bound
 	Lit    *Func    // funclit: the literal (lifted to a named function for the specification)
+	Want   int      // call: results requested by the context when that differs from the declaration (error cases)
 	Line   int
 	Raw    bool // string literal printed as raw string
 }
@@ -932,7 +933,11 @@ func (f *flat) expr(e *E) int {
 		}
 		return f.add(map[string]any{"k": "conv", "to": to, "x": f.expr(e.X)})
 	case "call":
-		return f.add(map[string]any{"k": "call", "fn": e.Fn, "args": f.exprs(e.Args), "spread": e.Spread, "line": e.Line})
+		want := -1
+		if e.Want > 0 {
+			want = e.Want
+		}
+		return f.add(map[string]any{"k": "call", "fn": e.Fn, "args": f.exprs(e.Args), "spread": e.Spread, "line": e.Line, "want": want})
 	case "callv":
 		return f.add(map[string]any{"k": "callv", "f": f.expr(e.X), "args": f.exprs(e.Args), "spread": e.Spread, "line": e.Line})
 	case "mcall":
